@@ -16,10 +16,16 @@ assignment (before / inside / after the inner scope) independently per quantity,
 inner scope, nothing else touched on that object, kept by both scopes" is one of the enumerated histories.
 
 A keep-set names parameter DEFINITIONS, so it applies to that parameter on every object of the class beneath the scope
-root (``kept``).  Serial numbers: constructors and ``copy.deepcopy`` hand out fresh numbers (inductive step over the
+root (``kept``) - and NOT to a same-named parameter of another class (power of block and core, kInf of block / assembly /
+core, detailedNDens of component / block / assembly ...: ``retain_state_keep_set_names_definitions_not_names``, on a mini
+reactor with scopes on reactor / core / assembly / block / component).  Composition is changed through public mutators
+far more often than by assigning ``numberDensities``: ``composition_mutators_respect_scopes_and_read_only`` runs every
+such mutator of components / blocks in the three situations read-only reactor / scope / scope with keep-set.  Serial numbers: constructors and ``copy.deepcopy`` hand out fresh numbers (inductive step over the
 global counter); a pickle round trip deliberately preserves the number (transport of the same object) and is outside
-the uniqueness claim.  Not covered: MPI synchronisation, the ``assigned`` bit masks as such (only their effect on the
-restored values), materials' own backUp beyond being called.
+the uniqueness claim; transferring parameters between two live objects (copyParamsFrom / updateParamsFrom) must not make
+them share a number.  Read-only: every way a collection offers to change what it reports (attribute, item, update, history
+item, deletion).  Not covered: MPI synchronisation, the ``assigned`` bit masks as such (only their effect on the
+restored values), materials' state other than their cache.
 """
 import copy
 import os
@@ -1293,7 +1299,8 @@ def composition_mutators_respect_scopes_and_read_only(ctx, mutator):
                                              "else pre-scope value)"), s2[key][1], want[key],
                        bump=bump if (first and isNum) else None)
             first = first and not isNum
-    ctx.check_eq("fuel.puFrac is back", v.fuel.p.puFrac, 0.0) if beneath(v.fuel, rootObj) else None
+    if beneath(v.fuel, rootObj):
+        ctx.check_eq("the other parameter of the fuel component (puFrac) is back", v.fuel.p.puFrac, 0.0)
 
 
 # ---------------------------------------------------------------------------
